@@ -23,6 +23,7 @@ type Seg struct {
 type WStep struct {
 	Accept int
 	Err    error
+	Block  bool // the Write parks (like a full send buffer) until the conn is closed, then fails with "use of closed"
 }
 
 // What the conn does when the read script is exhausted.
@@ -278,6 +279,25 @@ func (c *ScriptConn) Write(p []byte) (int, error) {
 	n := len(p)
 	var err error
 	if st, ok := c.WScript[idx]; ok {
+		if st.Block {
+			c.rec(Op{Op: "write-blocked", Req: len(p)})
+			for !c.closed && (c.wdl.IsZero() || time.Now().Before(c.wdl)) {
+				if !c.wdl.IsZero() {
+					t := time.AfterFunc(time.Until(c.wdl)+time.Millisecond, func() { c.mu.Lock(); c.cond.Broadcast(); c.mu.Unlock() })
+					c.cond.Wait()
+					t.Stop()
+				} else {
+					c.cond.Wait()
+				}
+			}
+			err := c.closedErr("write")
+			if !c.closed {
+				err = c.timeoutErr("write")
+			}
+			c.rec(Op{Op: "write", N: 0, Req: len(p), Err: errStr(err)})
+			c.mu.Unlock()
+			return 0, err
+		}
 		if st.Accept >= 0 && st.Accept < n {
 			n = st.Accept
 		}
